@@ -577,6 +577,12 @@ def run_step(env, step, ev):
             if st2 == "ok":
                 _check_template(env, case, what + " is True; get_template", t2)
             _audit_failure(env, case, what + " is True; get_template")
+            if st2 == "tle":
+                # has_template is documented as "get_template would not raise": True for a URI that get_template refuses
+                # tells the caller that a file exists where the lookup must not look
+                raise Failure(case, "%s is True although get_template raises TemplateLookupException (%s)%s"
+                              % (what, t2, "; the URI resolves to an existing file outside the configured directories" if nt else ""),
+                              "has_template-true-for-refused-uri")
             if st2 not in ("ok", "tle"):
                 raise Failure(case, "%s True, then get_template raised %s: %s" % (what, type(t2).__name__, t2),
                               "other-exception:get_template:" + type(t2).__name__)
@@ -633,6 +639,42 @@ def run_step(env, step, ev):
                 labels=("caller:" + lab, "kind:" + kind, "depth:%d" % depth, "cspell:%d" % cspell, "form:" + form)
                 + (("nontrivial:caller:%s:depth%d" % (lab, depth),) if nt else ()))
         return lab
+    if mode == "shared":
+        # another lookup, over a directory OUTSIDE the configured ones, shares the module directory and has compiled a file of
+        # its own under the same URI (its module file is newer than the inside file)
+        from mako.lookup import TemplateLookup
+
+        if env.cfg.get("mod") is not True:
+            ev.rejected += 1
+            return "rejected"
+        Lout = TemplateLookup(directories=[env.T], **env.lookup_kw)
+        try:
+            seen = Lout.get_template(uri).render_unicode()
+        except Exception as e:  # noqa: BLE001
+            raise core.HarnessError("the outside lookup could not serve %r: %r" % (uri, e))
+        if MARK not in seen:
+            raise core.HarnessError("the outside lookup did not serve an outside file for %r" % uri)
+        del env.events[:]
+        L2 = TemplateLookup(directories=list(env.dirs), **env.lookup_kw)
+        what = "get_template(%r) after a lookup over %r compiled its own %r into the shared module directory" % (uri, env.T[len(env.top):], uri)
+        if step.get("kind") == "include":
+            st, t = env.gated(L2.get_template, env.caller_uri("c_include.html", 0, 0))
+            if st != "ok":
+                raise core.HarnessError("calling template unavailable: %r" % (t,))
+            st, r = env.gated(t.render_unicode, u=uri)
+            if st == "ok" and MARK in r:
+                _fail(env, case, "include from %s: output %r contains the outside marker" % (what, r[:80]), "escape:marker-in-output")
+            _audit_failure(env, case, what)
+            if st != "ok":
+                raise Failure(case, "include from %s raised %s: %s" % (what, type(r).__name__, r), "other-exception:caller:" + type(r).__name__)
+        else:
+            st, r = env.gated(L2.get_template, uri)
+            if st != "ok":
+                raise Failure(case, "%s raised %s: %s (the URI names a file inside the configured directories)" % (what, type(r).__name__, r),
+                              "other-exception:get_template:" + type(r).__name__)
+            _check_template(env, case, what, r)
+        ev.case(key=["shared", uri, step.get("kind")], nontrivial=True, labels=("shared-module-directory",))
+        return "served-inside"
     raise core.HarnessError("unknown mode %r" % mode)
 
 
@@ -774,6 +816,11 @@ def _steps_for(task):
         gen = abs_steps(ABS_RELS)
     elif fam == "cancel":
         gen = ({"uri": u} for u in cancel_uris())
+    elif fam == "shared":
+        for u in ("/a.html", "/sub/a.html", "/secret.html", "a.html", "sub/a.html"):
+            for kind in ("direct", "include"):
+                yield {"uri": u, "mode": "shared", "kind": kind}
+        return
     elif fam == "blank":
         gen = ({"uri": u} for i, u in enumerate(blank_uris()) if i % arg[1] == arg[0])
     else:
@@ -936,6 +983,8 @@ def _cost(task):
         n = task["arg"][0]
         size = len(SEGS) ** (n - 1 if task["arg"][1] is not None else n) * len(SEPS) ** (n - 1)
         size /= task.get("split", (0, 1))[1]
+    elif task["fam"] == "shared":
+        return -1
     elif task["fam"] in ("climb", "cancel", "blank"):
         size = 3000
     else:
@@ -965,6 +1014,8 @@ def run(ctx):
             tasks.append(dict(cfg=cfg, fam="abs", routes=["direct", "callers"]))
             tasks.append(dict(cfg=cfg, fam="cancel", routes=["direct", "callers"]))
             tasks += [dict(cfg=cfg, fam="blank", arg=[i, 4], routes=["direct", "callers"]) for i in range(4)]
+        for cfg in ([c for c in QUICK_CFGS + QUICK_FAM_CFGS if c["mod"] is True] if ctx.quick else [c for c in all_cfgs() if c["mod"] is True]):
+            tasks.append(dict(cfg=cfg, fam="shared", routes=[]))
     if want("callers"):
         if ctx.quick:
             tasks += _sweep_tasks(QUICK_CFGS[0], 3, ["callers"], split=2)
